@@ -42,6 +42,14 @@ F1 = "C08-F1"
 # --------------------------------------------------------------------------
 # building biotite objects from a plain-data case
 # --------------------------------------------------------------------------
+def iscore(o, value, where=""):
+    """The reported score as int; a non-integer score (e.g. None) is a violation, not a harness error."""
+    if value is None or isinstance(value, (bool, str)) or not isinstance(value, (int, np.integer)):
+        o.fail("reported_score_is_integer", f"{where}: reported score is {value!r}, not an integer")
+        return None
+    return int(value)
+
+
 def sym_class(code, k):
     """Class of a symbol code: the small matrix is tiled over a large
     alphabet in a way that codes c and c & 255 get different classes."""
@@ -244,7 +252,11 @@ def check_result(o, case, res, opt, c1, c2, mat, bf=None):
     all_valid = True
     for k, ali in enumerate(res):
         trace = [tuple(int(v) for v in row) for row in np.asarray(ali.trace).tolist()]
-        o.check_eq(int(ali.score), opt, "reported_score_is_optimum", f"alignment {k}: score ({mode}, gap={gap})")
+        rep = iscore(o, ali.score, f"alignment {k} ({mode}, gap={gap})")
+        if rep is None:
+            all_valid = False
+            continue
+        o.check_eq(rep, opt, "reported_score_is_optimum", f"alignment {k}: score ({mode}, gap={gap})")
         o.check(
             np.asarray(ali.trace).ndim == 2 and (len(trace) == 0 or np.asarray(ali.trace).shape[1] == 2),
             "trace_valid",
@@ -257,7 +269,7 @@ def check_result(o, case, res, opt, c1, c2, mat, bf=None):
             continue
         # recomputed score (terminal gaps of a local alignment do not exist: all gaps are charged)
         mine = R.score_trace(trace, c1, c2, mat, go, ge, terminal_penalty=(terminal or local))
-        o.check_eq(mine, int(ali.score), "recomputed_score_equals_reported", f"alignment {k} trace={trace}")
+        o.check_eq(mine, rep, "recomputed_score_equals_reported", f"alignment {k} trace={trace}")
         # biotite's own scoring function (the public model) must agree with the independent one
         # a sequence without any aligned symbol (also: the empty trace)
         allgap = any(all(c[s] == -1 for c in trace) for s in (0, 1))
@@ -396,6 +408,117 @@ def run_dp(case):
     return o
 
 
+# --------------------------------------------------------------------------
+# sequences whose alphabet differs from the matrix alphabet
+# --------------------------------------------------------------------------
+FIT_LETTERS = "ACGTNRYKMSWB"
+FIT_KINDS = ["same", "prefix", "prefix", "infix", "infix", "suffix", "perm", "superset"]
+
+
+def _derive_alphabet(draw, malph, kind):
+    k = len(malph)
+    if kind == "same":
+        return malph
+    if kind == "prefix":
+        return malph[: draw(st.integers(1, k))]
+    if kind == "infix":
+        i = draw(st.integers(1, k - 1))
+        j = draw(st.integers(i + 1, k))
+        return malph[i:j]
+    if kind == "suffix":
+        return malph[draw(st.integers(1, k - 1)) :]
+    if kind == "perm":
+        return "".join(draw(st.permutations(list(malph))))
+    # superset: the matrix alphabet plus one more letter
+    extra = [c for c in FIT_LETTERS if c not in malph]
+    return malph + draw(st.sampled_from(extra))
+
+
+def st_alphabet_fit(tier):
+    @st.composite
+    def gen(draw):
+        k = draw(st.integers(2, 6))
+        malph = "".join(draw(st.lists(st.sampled_from(FIT_LETTERS), min_size=k, max_size=k, unique=True)))
+        kinds = [draw(st.sampled_from(FIT_KINDS)), draw(st.sampled_from(FIT_KINDS))]
+        alphs = [_derive_alphabet(draw, malph, kind) for kind in kinds]
+        seqs = [draw(st.text(a, min_size=1, max_size=6)) for a in alphs]
+        flat = draw(st.lists(st.integers(-9, 9), min_size=k * k, max_size=k * k))
+        return {
+            "malph": malph,
+            "kinds": kinds,
+            "alph1": alphs[0],
+            "alph2": alphs[1],
+            "s1": seqs[0],
+            "s2": seqs[1],
+            "mat": [flat[r * k : (r + 1) * k] for r in range(k)],
+            "gap": draw(st_gap()),
+            "mode": draw(st.sampled_from(["global", "semiglobal", "local"])),
+        }
+
+    return gen()
+
+
+def run_alphabet_fit(case):
+    """align_optimal() with sequences over an alphabet that is not the matrix alphabet: if the
+    matrix alphabet extends it (same symbols in the same leading positions) the result must be
+    the optimum under symbol-wise scoring; otherwise the documented ValueError ("alphabets do
+    not fit the matrix") - or, at least, never a result scored with the wrong matrix rows."""
+    import biotite.sequence as seq
+    import biotite.sequence.align as align
+
+    o = Outcome()
+    gap, go, ge, affine = gap_of(case)
+    malph = case["malph"]
+    mode = case["mode"]
+    matrix = align.SubstitutionMatrix(
+        seq.LetterAlphabet(malph), seq.LetterAlphabet(malph), np.array(case["mat"], dtype=np.int32)
+    )
+    s1 = seq.GeneralSequence(seq.LetterAlphabet(case["alph1"]), case["s1"])
+    s2 = seq.GeneralSequence(seq.LetterAlphabet(case["alph2"]), case["s2"])
+    fits = malph.startswith(case["alph1"]) and malph.startswith(case["alph2"])
+    o.label("fits" if fits else "does_not_fit", *[f"kind={k}" for k in case["kinds"]])
+    in_matrix = all(ch in malph for ch in case["s1"] + case["s2"])
+
+    def call():
+        return align.align_optimal(
+            s1, s2, matrix, gap_penalty=gap, terminal_penalty=(mode == "global"), local=(mode == "local"), max_number=5
+        )
+
+    if fits:
+        res = call()
+    else:
+        try:
+            res = call()
+        except ValueError:
+            o.label("rejected_with_ValueError")
+            o.mark_nontrivial()
+            return o
+        o.label("accepted_although_not_extending")
+        if not in_matrix:
+            o.fail("alphabet_mismatch_rejected", f"symbols outside the matrix alphabet {malph!r} were aligned: {case['s1']!r} {case['s2']!r}")
+            return o
+    # symbol-wise reference
+    c1 = [malph.index(ch) for ch in case["s1"]]
+    c2 = [malph.index(ch) for ch in case["s2"]]
+    bf = R.brute_force(c1, c2, case["mat"], go, ge, mode, forbid_adjacent=affine)
+    opt = bf["opt"]
+    o.check(isinstance(res, list) and len(res) >= 1, "reports_a_score", "no alignment returned")
+    for k, ali in enumerate(res):
+        rep = iscore(o, ali.score, f"alignment {k}")
+        if rep is None:
+            continue
+        o.check_eq(rep, opt, "reported_score_is_optimum", f"alignment {k}: symbol-wise optimum for {case['s1']!r}/{case['s2']!r} over {case['alph1']!r}/{case['alph2']!r}, matrix alphabet {malph!r}")
+        trace = [tuple(int(v) for v in row) for row in np.asarray(ali.trace).tolist()]
+        problems = R.validate_trace(trace, len(c1), len(c2), mode == "local")
+        if problems:
+            o.fail("trace_valid", f"alignment {k}: {problems[:3]} trace={trace}")
+            continue
+        mine = R.score_trace(trace, c1, c2, case["mat"], go, ge, terminal_penalty=(mode != "semiglobal"))
+        o.check_eq(mine, rep, "recomputed_score_equals_reported", f"alignment {k} trace={trace}")
+    o.mark_nontrivial(case["alph1"] != malph or case["alph2"] != malph)
+    return o
+
+
 SUBS = [
     Sub(
         "bruteforce",
@@ -414,6 +537,15 @@ SUBS = [
         thorough=60000,
         rule="both sequences >= 2 symbols and (a returned optimal alignment has a gap or > 1 optimal alignment), optimum from the reference DP",
         clauses="score == optimum; traces valid; recomputed score == reported == align.score(); distinct; <= max_number",
+    ),
+    Sub(
+        "alphabet_fit",
+        st_alphabet_fit,
+        run_alphabet_fit,
+        quick=1600,
+        thorough=50000,
+        rule="a sequence alphabet that is not the matrix alphabet itself (prefix, infix, suffix, permutation, superset)",
+        clauses="different alphabets per sequence: optimum under symbol-wise scoring when the matrix alphabet extends them, ValueError otherwise",
     ),
 ]
 
